@@ -1036,6 +1036,242 @@ fn run_c17(case: &C17Case, cut: usize, o: &mut Outcome) -> Option<Failure> {
     None
 }
 
+/// C10 on a resumed session: the exchanges that are re-sent still occupy the server's Receive
+/// Maximum. `steps` run on connection 1 under Receive Maximum `r1`; the connection is lost, the
+/// session resumed (or expired) under Receive Maximum `r2`; then new publishes are attempted until
+/// one is refused, everything is acknowledged, and the full quota must be back.
+pub fn run_c10_resume(steps: &[Step], r1: u16, r2: u16, expired: bool, o: &mut Outcome) -> Option<Failure> {
+    let plan = WritePlan::default();
+    let e = if expired { 0 } else { u32::MAX };
+    let spec = ConnectSpec { session_expiry: Some(e), client_id: Some("c10r".into()), ..Default::default() };
+    let connack = rc::Connack { receive_maximum: Some(r1), ..Default::default() };
+    let mut w = World::new();
+    if let Err(er) = connect_and_run(&mut w, spec.clone(), &connack, &plan) {
+        return Some(Failure { sig: "HARNESS/prologue".into(), msg: er });
+    }
+    let mut tr = Tracker::new();
+    tr.skip_existing(&mut w);
+    let mut exs: Vec<Ex> = vec![];
+    let publish = |w: &mut World, tag: String, qos: u8| -> usize {
+        w.start_op(0, OpSpec::Publish(PublishSpec { qos: Some(qos), topic: Some(tag), payload: Some(b"x".to_vec()), ..Default::default() })).unwrap()
+    };
+    for (k, st) in steps.iter().enumerate() {
+        w.tick();
+        match st {
+            Step::Pub1 | Step::Pub2 => {
+                let qos = if *st == Step::Pub1 { 1 } else { 2 };
+                let op = publish(&mut w, format!("c10r/{k}"), qos);
+                settle(&mut w, &plan, false);
+                tr.update(&mut w);
+                // refused for quota on connection 1: C10 proper judges that
+                if let Some(pid) = tr.pid(op) {
+                    exs.push(Ex { op, qos, pid, ph: Ph::AwaitAck, dropped: false });
+                }
+            }
+            Step::AckOldest | Step::AckNewest => {
+                let idxs: Vec<usize> = (0..exs.len()).filter(|i| exs[*i].ph != Ph::Done).collect();
+                if idxs.is_empty() {
+                    continue;
+                }
+                let i = if *st == Step::AckOldest { idxs[0] } else { *idxs.last().unwrap() };
+                let pid = exs[i].pid;
+                let (pkt, next) = match (exs[i].qos, &exs[i].ph) {
+                    (1, _) => (rc::Packet::Puback(rc::Ack { pid, ..Default::default() }), Ph::Done),
+                    (_, Ph::AwaitAck) => (rc::Packet::Pubrec(rc::Ack { pid, ..Default::default() }), Ph::AwaitComp),
+                    _ => (rc::Packet::Pubcomp(rc::Ack { pid, ..Default::default() }), Ph::Done),
+                };
+                w.reader.feed(rc::encode(&pkt, &rc::Form::short()));
+                settle(&mut w, &plan, false);
+                exs[i].ph = next;
+            }
+            Step::DropOldest | Step::DropNewest => {}
+        }
+    }
+    let unacked = exs.iter().filter(|e| e.ph == Ph::AwaitAck).count();
+    let between = exs.iter().filter(|e| e.ph == Ph::AwaitComp).count();
+    w.tick();
+    w.reader.set_eof();
+    settle(&mut w, &plan, false);
+    if w.run_result != Some(RunRes::Err(ErrSum::SocketClosed)) {
+        return None; // C13 / C17 judge this
+    }
+    if !w.mark_disconnected(0) || !w.set_up_again() {
+        return Some(Failure { sig: "HARNESS/reconnect".into(), msg: "context not available".into() });
+    }
+    let mut spec2 = spec.clone();
+    spec2.clean_start = Some(false);
+    let connack2 = rc::Connack { receive_maximum: Some(r2), session_present: !expired, ..Default::default() };
+    w.tick();
+    w.start_connect(spec2);
+    settle(&mut w, &plan, false);
+    w.reader.feed(rc::encode(&rc::Packet::Connack(connack2), &rc::Form::canonical()));
+    settle(&mut w, &plan, false);
+    if !matches!(w.conn_results.last(), Some(ConnRes::Connack(_))) {
+        return None;
+    }
+    w.sync_wire();
+    let skip = w.pkts.len();
+    w.tick();
+    w.start_run();
+    settle(&mut w, &plan, false);
+    if let Some(p) = first_panic(&w) {
+        return Some(Failure { sig: format!("PANIC/{}", panic_sig(&p)), msg: p });
+    }
+    w.sync_wire();
+    // PUBLISH packets in flight on connection 2: identifier -> QoS
+    let mut in_flight: BTreeMap<u16, u8> = BTreeMap::new();
+    let mut rel = 0usize;
+    for p in &w.pkts[skip..] {
+        match &p.decoded {
+            Ok(rc::Packet::Publish(x)) if x.qos > 0 => {
+                in_flight.insert(x.pid.unwrap_or(0), x.qos);
+            }
+            Ok(rc::Packet::Pubrel(_)) => rel += 1,
+            _ => {}
+        }
+    }
+    let resent = in_flight.len();
+    if expired && (resent > 0 || rel > 0) {
+        return None; // C17 judges this
+    }
+    if !expired && (resent != unacked || rel != between) {
+        return None; // C17 judges what is re-sent
+    }
+    o.class(if expired { "resume/session-expired" } else { "resume/session-alive" });
+    if resent + rel > 0 {
+        o.class("resume/with-exchanges-in-flight");
+    }
+    if resent > r2 as usize {
+        // the re-sent packets alone exceed the new limit; only "nothing new is accepted" is judged
+        o.class("resume/re-sent-alone-exceed-R2");
+    }
+    // new publishes until one is refused
+    let mut accepted = 0usize;
+    let mut seen = w.pkts.len();
+    let mut new_ops: Vec<(usize, u16, u8)> = vec![];
+    let limit = r2 as usize + 2;
+    let mut refused = false;
+    for k in 0..limit {
+        w.tick();
+        let qos = if k % 2 == 0 { 1 } else { 2 };
+        let op = publish(&mut w, format!("c10r/new/{k}"), qos);
+        settle(&mut w, &plan, false);
+        w.sync_wire();
+        let mut wrote = None;
+        for p in &w.pkts[seen..] {
+            if let Ok(rc::Packet::Publish(x)) = &p.decoded {
+                if x.topic == format!("c10r/new/{k}") {
+                    wrote = x.pid;
+                }
+            }
+        }
+        seen = w.pkts.len();
+        match (&w.ops[op].res, wrote) {
+            (Some(OpRes::Err(ErrSum::QuotaExceeded)), None) => {
+                refused = true;
+                break;
+            }
+            (Some(OpRes::Err(ErrSum::QuotaExceeded)), Some(_)) => {
+                return Some(Failure { sig: "C10/refused-but-written/resumed-session".into(), msg: format!("new publish #{k} on the resumed connection failed with QuotaExceeded but is on the wire") });
+            }
+            (None, Some(pid)) => {
+                accepted += 1;
+                in_flight.insert(pid, qos);
+                new_ops.push((op, pid, qos));
+                if in_flight.len() > r2 as usize && resent <= r2 as usize {
+                    return Some(Failure {
+                        sig: "C10/receive-maximum-exceeded/resumed-session".into(),
+                        msg: format!(
+                            "Receive Maximum {r2} on the resumed connection: {resent} PUBLISH packets re-sent (DUP) and {accepted} new ones accepted, none acknowledged yet = {} in flight (connection 1: Receive Maximum {r1}, {unacked} unacknowledged, {between} between PUBREC and PUBCOMP)",
+                            in_flight.len()
+                        ),
+                    });
+                }
+                if resent > r2 as usize {
+                    return Some(Failure {
+                        sig: "C10/receive-maximum-exceeded/resumed-session".into(),
+                        msg: format!("Receive Maximum {r2}: {resent} PUBLISH packets re-sent already exceed it, yet a new QoS {qos} publish was accepted"),
+                    });
+                }
+            }
+            _ => return None, // some other outcome (run ended, ...): not C10's business
+        }
+    }
+    let _ = refused;
+    // lower bound: never fewer than R2 minus everything that may still count
+    let floor = (r2 as usize).saturating_sub(resent + rel);
+    if accepted < floor {
+        return Some(Failure {
+            sig: "C10/refused-below-receive-maximum/resumed-session".into(),
+            msg: format!("Receive Maximum {r2} on the {} connection, {resent} PUBLISH + {rel} PUBREL re-sent: only {accepted} new publishes accepted before QuotaExceeded, at least {floor} slots are free", if expired { "new (session expired)" } else { "resumed" }),
+        });
+    }
+    if expired && accepted != (r2 as usize).min(limit) {
+        return Some(Failure {
+            sig: "C10/not-refused-at-receive-maximum/resumed-session".into(),
+            msg: format!("Receive Maximum {r2}, session expired: {accepted} new publishes accepted"),
+        });
+    }
+    // acknowledge everything on connection 2 (re-sent and new); then exactly R2 slots are free
+    let mut pend: Vec<(u16, u8, bool)> = vec![];
+    for ex in exs.iter().filter(|e| e.ph != Ph::Done) {
+        if !expired {
+            pend.push((ex.pid, ex.qos, ex.ph == Ph::AwaitComp));
+        }
+    }
+    for (_, pid, qos) in &new_ops {
+        pend.push((*pid, *qos, false));
+    }
+    for (pid, qos, comp_only) in pend {
+        if qos == 1 {
+            w.reader.feed(rc::encode(&rc::Packet::Puback(rc::Ack { pid, ..Default::default() }), &rc::Form::short()));
+        } else {
+            if !comp_only {
+                w.reader.feed(rc::encode(&rc::Packet::Pubrec(rc::Ack { pid, ..Default::default() }), &rc::Form::short()));
+                settle(&mut w, &plan, false);
+            }
+            w.reader.feed(rc::encode(&rc::Packet::Pubcomp(rc::Ack { pid, ..Default::default() }), &rc::Form::short()));
+        }
+        settle(&mut w, &plan, false);
+    }
+    if w.run_result.is_some() {
+        return None;
+    }
+    w.sync_wire();
+    let mut seen = w.pkts.len();
+    let mut accepted2 = 0usize;
+    let mut refused2 = false;
+    for k in 0..(r2 as usize + 1) {
+        w.tick();
+        let op = publish(&mut w, format!("c10r/after/{k}"), 1);
+        settle(&mut w, &plan, false);
+        w.sync_wire();
+        let wrote = w.pkts[seen..].iter().any(|p| matches!(&p.decoded, Ok(rc::Packet::Publish(x)) if x.topic == format!("c10r/after/{k}")));
+        seen = w.pkts.len();
+        match (&w.ops[op].res, wrote) {
+            (Some(OpRes::Err(ErrSum::QuotaExceeded)), false) => {
+                refused2 = true;
+                break;
+            }
+            (None, true) => accepted2 += 1,
+            _ => return None,
+        }
+    }
+    if accepted2 < r2 as usize {
+        return Some(Failure {
+            sig: "C10/refused-below-receive-maximum/resumed-session".into(),
+            msg: format!("after every exchange on the second connection was acknowledged, only {accepted2} of Receive Maximum {r2} publishes were accepted (a slot leaked across the reconnection)"),
+        });
+    }
+    if !refused2 {
+        return Some(Failure {
+            sig: "C10/not-refused-at-receive-maximum/resumed-session".into(),
+            msg: format!("after every exchange was acknowledged, {} publishes were accepted under Receive Maximum {r2}", accepted2),
+        });
+    }
+    None
+}
+
 impl Property for C17 {
     const ID: &'static str = "C17";
     const RULE: &'static str = "a history of QoS 1/2 publishes and acknowledgements (oldest/newest) on connection 1, cut by EOF after EVERY prefix; then the hook records the disconnection secs_ago in {0, E/2, 2E+60}, the same Context is set up on fresh mocks, connected (clean start false, session expiry E in {0, absent, finite 100..10^6, 2^32-1} on both connections, CONNACK repeating it or silent) and run; the second wire is strictly decoded. Non-trivial = at the cut >= 1 PUBLISH is unacknowledged and >= 1 exchange is between PUBREC and PUBCOMP";
